@@ -348,7 +348,9 @@ def check_decorator(ctx, chk):
             rets = returns(outs)
             vt, err = eval_fn(ctx, chk, MET + fn, [OV], kw)
             qn = CM + "." + meth
-            if len(rets) != 1 or vt is None or raises(outs):
+            from .c04 import alpha_region_meets_unit
+            rs_ = [o_ for o_ in raises(outs) if not (o_.pc and alpha_region_meets_unit(o_.pc) is False)]   # refusals of alpha outside (0, 1) are not paths of the property
+            if len(rets) != 1 or vt is None or rs_:
                 chk.unknown("R05.4", "%s(as_dict=%s): %d return paths %s" % (meth, as_dict, len(rets), err or ""))
                 continue
             v = rets[0].value
